@@ -58,10 +58,10 @@ def run(tier, seed, t0, only=None):
     obs = K.run_harnesses(hs, tier) if hs else []
     from ..mirsym import binrun, sercheck
     from . import bingroups
+    binrun.refresh_mir()
     ss = bingroups.ser_groups(tier, 'C01')
     if only:
         ss = [g for g in ss if any(g['id'].startswith(o) for o in only)]
     if ss:
-        binrun.refresh_mir()
         obs += binrun.run(ss, ('C01',), module=sercheck)
     return C.finish('C01', tier, seed, obs, t0, ASSUMPTIONS, TRUSTED, RULE)
